@@ -28,7 +28,7 @@ EXTENDS NormImpl
 
 CONSTANTS Cases,        \* set of [fn, a] records (case machine)
           Machines,     \* subset of {"wa-alias", "wa-snap", "rng", "po", "cache"}
-          MaxLen        \* history length
+          MaxLenOf(_)   \* history length per machine
 VARIABLES case, m, hist, st
 nvars == <<case, m, hist, st>>
 
@@ -105,7 +105,7 @@ TextLaw ==
         /\ DedentRef(IndentRef(case.a.lines, case.a.ind), case.a.ind, 1) = case.a.lines    \* dedent reverts indent
   /\ (case.fn = "dedent" /\ PlainText(case.a.lines, case.a.ind) /\ case.a.maxlv = NONE) =>
         MinOf([i \in 1..Len(case.a.lines) |-> Levels(DedentRef(case.a.lines, case.a.ind, NONE)[i], case.a.ind)]) = 0
-  /\ (case.fn = "arrstr1") => LET r == ArrayStr1(case.a.row, case.a.nprint) IN
+  /\ (case.fn = "arrstr1") => \A r \in ArrayStr1Set(case.a.row, case.a.nprint) :
         /\ Cardinality({i \in 1..Len(r) : r[i] # DOTS}) <= Max2(case.a.nprint, 0)
         /\ (Len(case.a.row) <= case.a.nprint => r = case.a.row)
 \* with the function "+1" on every side the result counts how often a point was processed
@@ -141,7 +141,7 @@ WaArrs(mode, s) == IF mode = "wa-alias" THEN [i \in 1..Len(s.ctxs) |-> s.obj] EL
 WaActs(s) ==
   (IF Len(s.ctxs) < 2 THEN {[a |-> "enter", i |-> 0, f |-> ""]} ELSE {})
   \cup {[a |-> "mutarr", i |-> i, f |-> f] : i \in 1..Len(s.ctxs), f \in {"x2", "p1"}}
-  \cup {[a |-> "mutobj", i |-> 0, f |-> "set7"]}
+  \cup (IF Len(s.ctxs) > 0 THEN {[a |-> "mutobj", i |-> 0, f |-> "set7"]} ELSE {})      \* a direct write while a context is open
   \cup (IF Len(s.ctxs) > 0 THEN {[a |-> "exit", i |-> 0, f |-> ""], [a |-> "raise", i |-> 0, f |-> ""]} ELSE {})
 
 \* ---- scoped globals: s = [g (the global), stack (of [set, saved]), obs (what the user saw)]
@@ -193,7 +193,8 @@ CacheStep(s, act) ==
                          IN  [s EXCEPT !.lru = IF Len(ins) > CacheCap THEN Tail(ins) ELSE ins,
                                        !.misses = s.misses + 1, !.last = Ok(act.x)]
 CacheActs(s) ==
-  {[a |-> "call", x |-> x, kw |-> 0] : x \in {VI(1), VF(1, 1), VI(2), VI(3), VL(<<VI(1)>>)}}
+  \* (whether f(1) and f(1.0) share an entry is left open by the functools documentation: not asked)
+  {[a |-> "call", x |-> x, kw |-> 0] : x \in {VI(1), VI(2), VI(3), VL(<<VI(1)>>)}}
   \cup {[a |-> "call", x |-> VI(1), kw |-> 1], [a |-> "clear", x |-> VNone, kw |-> 0]}
 
 MInit(mm) == CASE mm \in {"wa-alias", "wa-snap"} -> WaInit [] mm = "rng" -> RngInit [] mm = "po" -> PoInit
@@ -204,7 +205,7 @@ MActs(mm, s) == CASE mm \in {"wa-alias", "wa-snap"} -> WaActs(s) [] mm = "rng" -
                   [] mm = "cache" -> CacheActs(s)
 
 InitHist == case = NoCase /\ m \in Machines /\ hist = <<>> /\ st = MInit(m)
-NextHist == /\ Len(hist) < MaxLen
+NextHist == /\ Len(hist) < MaxLenOf(m)
             /\ \E act \in MActs(m, st) : hist' = Append(hist, act) /\ st' = MStep(m, st, act)
             /\ UNCHANGED <<case, m>>
 Init == InitCases \/ InitHist
